@@ -148,7 +148,7 @@ class World:
                             "cplx": rng.random() < 0.5, "twod": rng.random() < 0.4, "axis": rng.random() < 0.5,
                             "pay": rng.randrange(1 << 30), "big": rng.random() < 0.06,
                             "single": rng.choice([0, 0, 0, 0, 1, 2]), "again": rng.random() < 0.5,
-                            "prefill": rng.random() < 0.3})
+                            "prefill": rng.random() < 0.3, "layout": rng.choice([0, 0, 1, 2])})
                 if ops[-1]["src"] == "abs" and rng.random() < 0.5:
                     # ... and the same spectrum once more inside (another) units context
                     ops.append({"op": "enter", "t": "u", "u": rng.randrange(len(UNITS))})
@@ -860,6 +860,11 @@ class Runner:
             a = qr.DFunction()
             a.axis = ta
             a.data = y.copy()
+            lay = int(op.get("layout", 0))
+            if twod and lay and not op.get("big"):
+                # same values, other memory layout (Fortran order / a transposed view): exports go by index, not by memory
+                a.data = numpy.asfortranarray(y) if lay == 1 else numpy.ascontiguousarray(y.T).T
+                self.ctx.probe("export_of_non_contiguous_2d_data")
             b = qr.DFunction()
             b.axis = qr.TimeAxis(0.0, n, 1.0)
             if op.get("prefill"):
